@@ -117,6 +117,40 @@ def ref_diag(node, rm):
     return rows
 
 
+def make_twins(rng, node, role=':tw'):
+    """Two trees with the same top and the same triples in the same order but different
+    layouts: t1 writes (v :tw u) as an inverted re-entrancy ':tw-of v' in u right after the
+    nested node v; t2 writes it as the last branch ':tw u' inside v.  None if the tree has no
+    nested node."""
+    cands = []
+
+    def scan(nd, path):
+        for j, (r, t) in enumerate(nd[1]):
+            if isinstance(t, tuple):
+                if t[0] is not None and nd[0] is not None and t[0] != nd[0]:
+                    cands.append(path + (j,))
+                scan(t, path + (j,))
+    scan(node, ())
+    if not cands:
+        return None
+    path = rng.choice(cands)
+
+    def rebuild(nd, path, variant):
+        v, br = nd
+        j = path[0]
+        out = list(br)
+        if len(path) == 1:
+            r, child = out[j]
+            if variant == 1:
+                out.insert(j + 1, (role + '-of', child[0]))
+            else:
+                out[j] = (r, (child[0], list(child[1]) + [(role, v)]))
+        else:
+            out[j] = (out[j][0], rebuild(out[j][1], path[1:], variant))
+        return (v, out)
+    return rebuild(node, path, 1), rebuild(node, path, 2)
+
+
 # ---------------------------------------------------------------- oracles
 
 def payload(node, mname, **kw):
@@ -125,8 +159,11 @@ def payload(node, mname, **kw):
     return ['tree', d]
 
 
-def c04(ctx, node, mname, meta=None):
-    _, model, rm, _ = M.get(mname)
+def c04(ctx, node, mname, meta=None, model_rm=None):
+    if model_rm is not None:
+        model, rm = model_rm
+    else:
+        _, model, rm, _ = M.get(mname)
     tree = Tree(node, metadata=dict(meta or {}))
     ok, g = ctx.call(probe.original(layout.interpret), tree, model, clause='interpret')
     if not ok:
